@@ -61,15 +61,23 @@ theorem rn_neg (pr : Prec) (x : Rat) : pr.rn (-x) = - pr.rn x := by
     · rw [if_neg (by linarith : ¬ -x = 0), if_neg (by linarith : ¬ -x > 0), if_neg (ne_of_gt h), if_pos h]
       simp
 
-theorem rn_le_pow (pr : Prec) (k : Int) (hk : pr.emin ≤ k) {x : Rat} (h : x ≤ (2:Rat)^k) : pr.rn x ≤ (2:Rat)^k := by
-  have := rn_mono pr h
-  rwa [rn_two_zpow pr k hk] at this
+/-- the exponent `k` is normal in the format (`exact` has no exponent range) -/
+abbrev ExpOK (pr : Prec) (k : Int) : Prop := pr = .exact ∨ pr.emin ≤ k
 
-theorem rn_ge_pow (pr : Prec) (k : Int) (hk : pr.emin ≤ k) {x : Rat} (h : (2:Rat)^k ≤ x) : (2:Rat)^k ≤ pr.rn x := by
-  have := rn_mono pr h
-  rwa [rn_two_zpow pr k hk] at this
+theorem rn_two_zpow' (pr : Prec) (k : Int) (hk : ExpOK pr k) : pr.rn ((2:Rat)^k) = (2:Rat)^k := by
+  rcases hk with rfl | hk
+  · rfl
+  · exact rn_two_zpow pr k hk
 
-theorem rn_abs_le_pow (pr : Prec) (k : Int) (hk : pr.emin ≤ k) {x : Rat} (h : |x| ≤ (2:Rat)^k) :
+theorem rn_le_pow (pr : Prec) (k : Int) (hk : ExpOK pr k) {x : Rat} (h : x ≤ (2:Rat)^k) : pr.rn x ≤ (2:Rat)^k := by
+  have := rn_mono pr h
+  rwa [rn_two_zpow' pr k hk] at this
+
+theorem rn_ge_pow (pr : Prec) (k : Int) (hk : ExpOK pr k) {x : Rat} (h : (2:Rat)^k ≤ x) : (2:Rat)^k ≤ pr.rn x := by
+  have := rn_mono pr h
+  rwa [rn_two_zpow' pr k hk] at this
+
+theorem rn_abs_le_pow (pr : Prec) (k : Int) (hk : ExpOK pr k) {x : Rat} (h : |x| ≤ (2:Rat)^k) :
     |pr.rn x| ≤ (2:Rat)^k := by
   obtain ⟨h1, h2⟩ := abs_le.mp h
   refine abs_le.mpr ⟨?_, rn_le_pow pr k hk h2⟩
@@ -77,27 +85,33 @@ theorem rn_abs_le_pow (pr : Prec) (k : Int) (hk : pr.emin ≤ k) {x : Rat} (h : 
   rw [rn_neg] at this
   linarith
 
-/-- the two formats of scales and statistics -/
-abbrev F3264 (pr : Prec) : Prop := pr = .f32 ∨ pr = .f64
+/-- the formats of scales and statistics: float32, float64, or `exact` (statistics of integer tensors; python numbers) -/
+abbrev F3264 (pr : Prec) : Prop := pr = .f32 ∨ pr = .f64 ∨ pr = .exact
 
-theorem emin_le_of (pr : Prec) (hpr : F3264 pr) (k : Int) (hk : -126 ≤ k) : pr.emin ≤ k := by
-  rcases hpr with rfl | rfl <;> simp only [Prec.emin] <;> omega
+theorem emin_le_of (pr : Prec) (hpr : F3264 pr) (k : Int) (hk : -126 ≤ k) : ExpOK pr k := by
+  rcases hpr with rfl | rfl | rfl
+  · right; simp only [Prec.emin]; omega
+  · right; simp only [Prec.emin]; omega
+  · left; rfl
 
 theorem F3264.join {a b : Prec} (ha : F3264 a) (hb : F3264 b) : F3264 (a.join b) := by
-  rcases ha with rfl | rfl <;> rcases hb with rfl | rfl <;> simp [F3264, Prec.join]
+  rcases ha with rfl | rfl | rfl <;> rcases hb with rfl | rfl | rfl <;> simp [F3264, Prec.join]
 
 theorem F3264.promote {a : Prec} (ha : F3264 a) (w : Nat) : F3264 (promoteInt a w) := by
-  rcases ha with rfl | rfl
+  rcases ha with rfl | rfl | rfl
   · unfold promoteInt; simp only []; split <;> simp [F3264]
-  · right; rfl
+  · right; left; rfl
+  · right; right; rfl
 
 /-- whatever stays within `2^127` is finite in float32 and float64 -/
 theorem isFin_of_abs_le (pr : Prec) (hpr : F3264 pr) {x : Rat} (h : |x| ≤ (2:Rat)^(127:Int)) : pr.isFin x = true := by
   obtain ⟨h1, h2⟩ := abs_le.mp h
-  have hm : (2:Rat)^(127:Int) ≤ pr.maxFinite := by
-    rcases hpr with rfl | rfl
-    · norm_num [Prec.maxFinite, Prec.p, Prec.emax]
-    · have e : Prec.f64.maxFinite = ((2:Rat)^(53:Int) - 1) * (2:Rat)^(971:Int) := by
+  rcases hpr with rfl | rfl | rfl
+  · have hm : (2:Rat)^(127:Int) ≤ Prec.f32.maxFinite := by norm_num [Prec.maxFinite, Prec.p, Prec.emax]
+    simp only [Prec.isFin, Bool.and_eq_true, decide_eq_true_eq]
+    constructor <;> linarith
+  · have hm : (2:Rat)^(127:Int) ≤ Prec.f64.maxFinite := by
+      have e : Prec.f64.maxFinite = ((2:Rat)^(53:Int) - 1) * (2:Rat)^(971:Int) := by
         norm_num [Prec.maxFinite, Prec.p, Prec.emax]
       rw [e]
       have h971 : (2:Rat)^(127:Int) ≤ (2:Rat)^(971:Int) := zpow_le_zpow_right₀ (by norm_num) (by norm_num)
@@ -105,8 +119,9 @@ theorem isFin_of_abs_le (pr : Prec) (hpr : F3264 pr) {x : Rat} (h : |x| ≤ (2:R
       have hpos := two_pos 971
       calc (2:Rat)^(127:Int) ≤ 1 * (2:Rat)^(971:Int) := by rw [one_mul]; exact h971
         _ ≤ ((2:Rat)^(53:Int) - 1) * (2:Rat)^(971:Int) := mul_le_mul_of_nonneg_right h53 (le_of_lt hpos)
-  rcases hpr with rfl | rfl <;>
-    simp only [Prec.isFin, Bool.and_eq_true, decide_eq_true_eq] <;> constructor <;> linarith
+    simp only [Prec.isFin, Bool.and_eq_true, decide_eq_true_eq]
+    constructor <;> linarith
+  · rfl
 
 theorem pow_le_pow {a b : Int} (h : a ≤ b) : (2:Rat)^a ≤ (2:Rat)^b := zpow_le_zpow_right₀ (by norm_num) h
 
@@ -127,17 +142,23 @@ theorem sLo_pos : 0 < sLo := two_pos _
 
 theorem minBound_ge14 (pr : Prec) (hpr : F3264 pr) : (2:Rat)^(-14:Int) ≤ minBound pr := by
   have h0 : (2:Rat)^(-14:Int) ≤ 1/10000 := by norm_num
-  have h64 := rn_ge_pow .f64 (-14) (by simp [Prec.emin]) h0
+  have h64 := rn_ge_pow .f64 (-14) (.inr (by simp [Prec.emin])) h0
   have := rn_ge_pow pr (-14) (emin_le_of pr hpr _ (by norm_num)) h64
   unfold minBound weakScalar
-  rcases hpr with rfl | rfl <;> exact this
+  rcases hpr with rfl | rfl | rfl
+  · exact this
+  · exact this
+  · exact h0
 
 theorem minBound_le1 (pr : Prec) (hpr : F3264 pr) : minBound pr ≤ 1 := by
   have h0 : (1:Rat)/10000 ≤ (2:Rat)^(0:Int) := by norm_num
-  have h64 := rn_le_pow .f64 0 (by simp [Prec.emin]) h0
+  have h64 := rn_le_pow .f64 0 (.inr (by simp [Prec.emin])) h0
   have := rn_le_pow pr 0 (emin_le_of pr hpr _ (by norm_num)) h64
   unfold minBound weakScalar
-  rcases hpr with rfl | rfl <;> simpa using this
+  rcases hpr with rfl | rfl | rfl
+  · simpa using this
+  · simpa using this
+  · norm_num
 
 theorem absR_le {x b : Rat} (h : |x| ≤ b) : absR x ≤ b := by rw [absR_eq]; exact h
 theorem maxR_le {a b c : Rat} (h1 : a ≤ c) (h2 : b ≤ c) : maxR a b ≤ c := by unfold maxR; split <;> assumption
@@ -155,8 +176,8 @@ theorem zpScale1_total (pr : Prec) (hpr : F3264 pr) (bits : Nat) (hb2 : 2 ≤ bi
   obtain ⟨hp1, hp2⟩ := pow_bounds bits hb2 hb16
   have hqmax := qmaxF_eq bits (by omega)
   have hqmin := qminF_eq bits (by omega)
-  have e63 : pr.emin ≤ 63 := emin_le_of pr hpr _ (by norm_num)
-  have e30 : pr.emin ≤ -30 := emin_le_of pr hpr _ (by norm_num)
+  have e63 : ExpOK pr 63 := emin_le_of pr hpr _ (by norm_num)
+  have e30 : ExpOK pr (-30) := emin_le_of pr hpr _ (by norm_num)
   have h14 : (0:Rat) < (2:Rat)^(-14:Int) := two_pos _
   have hB127 : B ≤ (2:Rat)^(127:Int) := pow_le_pow (by norm_num)
   obtain ⟨hmn1, hmn2⟩ := abs_le.mp hmn
@@ -198,7 +219,7 @@ theorem zpScale1_total (pr : Prec) (hpr : F3264 pr) (bits : Nat) (hb2 : 2 ≤ bi
       have b : -B ≤ minR mn 0 := le_minR hmn1 (by linarith [B_pos])
       have : (2:Rat)^(64:Int) = 2 * B := by unfold B; norm_num
       rw [this]; linarith
-    have e64 : pr.emin ≤ 64 := emin_le_of pr hpr _ (by norm_num)
+    have e64 : ExpOK pr 64 := emin_le_of pr hpr _ (by norm_num)
     have hd0 : 0 ≤ asymDiff pr mn mx := rn_nonneg pr hD0
     have hd1 : asymDiff pr mn mx ≤ (2:Rat)^(64:Int) := rn_le_pow pr _ e64 hD1
     have hb1 : minBound pr ≤ asymBound pr mn mx := maxR_ge_right _ _
@@ -228,9 +249,9 @@ theorem zpScale1_total (pr : Prec) (hpr : F3264 pr) (bits : Nat) (hb2 : 2 ≤ bi
       calc -minR mn 0 ≤ B := by linarith
         _ = (2:Rat)^(93:Int) * sLo := by unfold B sLo; rw [pow_mul]; norm_num
         _ ≤ (2:Rat)^(93:Int) * asymScale pr bits mn mx := mul_le_mul_of_nonneg_left hs1 (le_of_lt (two_pos _))
-    have e93 : pr.emin ≤ 93 := emin_le_of pr hpr _ (by norm_num)
+    have e93 : ExpOK pr 93 := emin_le_of pr hpr _ (by norm_num)
     have hq : |asymQuo pr bits mn mx| ≤ (2:Rat)^(93:Int) := rn_abs_le_pow pr _ e93 hquo
-    have e94 : pr.emin ≤ 94 := emin_le_of pr hpr _ (by norm_num)
+    have e94 : ExpOK pr 94 := emin_le_of pr hpr _ (by norm_num)
     have hzraw : |qminF bits - asymQuo pr bits mn mx| ≤ (2:Rat)^(94:Int) := by
       obtain ⟨a, b⟩ := abs_le.mp hq
       have h94 : (2:Rat)^(94:Int) = 2 * (2:Rat)^(93:Int) := by
